@@ -154,7 +154,8 @@ def m_x_Attribute(self, st, n, k):
     # module-qualified builtins
     if isinstance(n.value, ast.Name) and n.value.id not in st.loc:
         q = '%s.%s' % (n.value.id, n.attr)
-        if q in ('int.from_bytes', 'struct.Struct', 'struct.error', 're.escape', 'copy.deepcopy',
+        if q in ('int.from_bytes', 'struct.Struct', 'struct.error', 're.escape', 'copy.deepcopy', 'sys.exc_info',
+                 'traceback.format_exception',
                  'Bits.ByteBoundaryError', 'sys.byteorder', 'operator.truth', 're.compile',
                  'pickle.dumps', 'pickle.loads', 'Exception.__init__', 're.DEBUG', 'os.path'):
             if q == 'sys.byteorder':
@@ -181,14 +182,27 @@ def m_x_Attribute(self, st, n, k):
                     return self.with_raises(st, [(z3.Not(isset), 'AttributeError')],
                                             lambda st: k(st, self.read_attr(st, base, n.attr)))
                 return k(st, self.read_attr(st, base, n.attr))
+            if base.cls == 'Field' and n.attr in ('pack', 'unpack', 'init', 'pack_regexp'):
+                return k(st, VFunc('role', 'FIELD.' + n.attr, base.z))
             c = self.method_contract(base.cls, n.attr)
             if c is not None:
                 return k(st, VFunc('contract', c.name, base))
             if n.attr == '__class__':
-                return k(st, VFunc('classof', base))
+                return k(st, VClassSym(self.class_of(base.z), base.cls))
+            if n.attr in ('get_fields', 'get_sync_before_pack_methods', 'get_sync_after_unpack_methods') \
+                    and self.is_subclass(base.cls, 'Packet'):
+                return k(st, VFunc('tablefn', n.attr, self.class_of(base.z)))
             raise Untranslated('attribute %s of %s' % (n.attr, base.cls))
-        if isinstance(base, VFunc) and base.tag == 'classof' and n.attr == '__name__':
-            return k(st, VStr(self.class_name_of(st, base.payload[0])))
+        if isinstance(base, VClassSym):
+            if n.attr == '__name__':
+                return k(st, VStr(z3.Function('class_name', T.I, T.S)(base.z)))
+            if n.attr in ('get_fields', 'get_sync_before_pack_methods', 'get_sync_after_unpack_methods'):
+                return k(st, VFunc('tablefn', n.attr, base.z))
+            if n.attr == 'unpack':
+                return k(st, VFunc('contract', 'packet:Packet.unpack', base))
+            raise Untranslated('attribute %s of a class object' % n.attr)
+        if isinstance(base, VExc) and base.ref is not None:
+            return got(st, VRef(base.ref, 'PacketError'))
         if isinstance(base, VDyn) and n.attr == 'pattern':
             if 'regex' not in self.axiom_sets:
                 self.axiom_sets.append('regex')
@@ -210,9 +224,40 @@ def m_x_Attribute(self, st, n, k):
     return self.ev(st, n.value, got)
 
 
-def m_class_name_of(self, st, obj):
-    f = z3.Function('class_name', T.I, T.S)
-    return f(obj.z)
+def m_class_of(self, r):
+    return z3.Function('class_of', T.I, T.I)(r)
+
+
+def m_field_table(self, clsid):
+    """get_fields() of a packet class: an immutable table (name, field, field.pack, field.unpack);
+    well-formedness of the table (WFClass, DESIGN.md section 7) is assumed."""
+    n = z3.Function('ft_len', T.I, T.I)(clsid)
+    nm = z3.Function('ft_name', T.I, T.I, T.S)
+    fl = z3.Function('ft_field', T.I, T.I, T.I)
+    key = ('ft', str(clsid))
+    if key not in self._facts_added:
+        self._facts_added.add(key)
+        i = z3.Int('i!ft')
+        self.extra_hyps.append(n >= 0)
+        self.extra_hyps.append(safe_forall([i], z3.Implies(z3.And(0 <= i, i < n),
+                                                        z3.And(self.inst_of(fl(clsid, i), 'Field'), fl(clsid, i) >= 0)),
+                                           patterns=[fl(clsid, i)]))
+        self.used_assumptions.add('WFClass: get_fields() lists (name, field, field.pack, field.unpack) for compiled fields '
+                                  'allocated before the call; field.field_name == name (assumed, metaclass pipeline not under contract)')
+    def elem(i):
+        f = VRef(fl(clsid, i), 'Field')
+        return VTuple([VStr(nm(clsid, i)), f, VFunc('role', 'FIELD.pack', f.z), VFunc('role', 'FIELD.unpack', f.z)])
+    return VSeqAbs(n, elem, 'fieldtable')
+
+
+def m_sync_table(self, clsid, which):
+    n = z3.Function('sync_len_' + which, T.I, T.I)(clsid)
+    fn = z3.Function('sync_fn_' + which, T.I, T.I, T.I)
+    key = ('sync', which, str(clsid))
+    if key not in self._facts_added:
+        self._facts_added.add(key)
+        self.extra_hyps.append(n >= 0)
+    return VSeqAbs(n, lambda i: VFunc('role', 'SYNC.' + which, fn(clsid, i)), 'synctable')
 
 
 def m_x_BoolOp(self, st, n, k):
@@ -316,7 +361,9 @@ def m_x_Dict(self, st, n, k):
 
 
 def m_x_JoinedStr(self, st, n, k):
-    return k(st, VStr(fresh('fstr', T.S)))
+    # the embedded expressions are evaluated (they may raise); str()/format of a value is opaque and total
+    vals = [v.value for v in n.values if isinstance(v, ast.FormattedValue)]
+    return self.ev_list(st, vals, lambda st, vs: k(st, VStr(fresh('fstr', T.S))))
 
 
 def m_x_Subscript(self, st, n, k):
@@ -425,6 +472,15 @@ def m_x_Call(self, st, n, k):
 
 
 def m_call(self, st, f, pos, kws, kwstar, starv, k, node=None):
+    if isinstance(f, VClassSym):
+        r = self.alloc(st)
+        obj = VRef(r, f.base)
+        st.assume(self.inst_of(r, f.base))
+        st.assume(self.class_of(r) == f.z)
+        c = self.method_contract(f.base, '__init__')
+        if c is None:
+            raise Untranslated('no contract for %s.__init__' % f.base)
+        return self.call_contract(st, c, [obj] + pos, kws, kwstar, lambda st, _: k(st, obj))
     if not isinstance(f, VFunc):
         if isinstance(f, VDyn):
             return self.call_dyn(st, f, pos, kws, kwstar, k)
@@ -441,6 +497,11 @@ def m_call(self, st, f, pos, kws, kwstar, starv, k, node=None):
         return self.call_contract(st, c, ([selfv] if selfv is not None else []) + pos, kws, kwstar, k)
     if f.tag == 'role':
         return self.call_role(st, f, pos, kws, kwstar, k)
+    if f.tag == 'tablefn':
+        name, clsid = f.payload
+        if name == 'get_fields':
+            return k(st, self.field_table(clsid))
+        return k(st, self.sync_table(clsid, 'pack' if 'before_pack' in name else 'unpack'))
     if f.tag == 'methsel':
         obj, sel, attr = f.payload
         cands = self.classes[obj.cls].get('methsel', {}).get(attr)
@@ -476,6 +537,8 @@ def m_bind_args(self, c, pos, kws, kwstar):
     for name, v in kws.items():
         if name in c.params and c.params[name] != 'kw':
             env[name] = v
+        elif getattr(c, 'varkw', None):
+            pass
         elif kwparam:
             if name == 'packing':
                 kwstar = VKw(T.Kw.mkkw(T.Kw.has_ipp(kwstar.z), T.Kw.ipp(kwstar.z), T.Kw.has_root(kwstar.z),
@@ -487,6 +550,15 @@ def m_bind_args(self, c, pos, kws, kwstar):
                 raise Untranslated('extra keyword %s for %s' % (name, c.name))
         else:
             raise Untranslated('unexpected keyword %s for %s' % (name, c.name))
+    varkw = getattr(c, 'varkw', None)
+    if varkw and varkw not in env:
+        extra = {nm: v for nm, v in kws.items() if nm not in c.params}
+        has = z3.K(T.S, z3.BoolVal(False))
+        val = z3.K(T.S, T.Val.VN)
+        for nm, v in extra.items():
+            has = z3.Store(has, z3.StringVal(nm), True)
+            val = z3.Store(val, z3.StringVal(nm), to_val(v))
+        env[varkw] = VConf(T.Conf.mkconf(has, val))
     if kwparam:
         env[kwparam[0]] = kwstar if kwstar is not None else VKw(self.empty_kw())
     elif kwstar is not None:
@@ -507,6 +579,17 @@ def m_empty_kw(self):
 
 def m_call_contract(self, st, c, pos, kws, kwstar, k, site=''):
     env = self.bind_args(c, pos, kws, kwstar)
+    # a dynamically typed argument for a typed parameter: its type is an obligation
+    for p, kind in c.params.items():
+        v = env.get(p)
+        if isinstance(v, VDyn) and kind in ('bytes', 'int', 'bool', 'str'):
+            self.add_obligation(st, 'pre@call', 'argument %s of %s is %s' % (p, short(c.name), kind),
+                                self.isinst(st, v, kind), 'type of argument')
+            env[p] = self.wrap(kind, self.unwrap(kind, v))
+        elif isinstance(v, VDyn) and kind.startswith('ref:'):
+            self.add_obligation(st, 'pre@call', 'argument %s of %s is a %s' % (p, short(c.name), kind[4:]),
+                                self.isinst(st, v, kind[4:]), 'type of argument')
+            env[p] = VRef(T.Val.rval(v.z), kind[4:])
     call_st = st.fork()
     # check preconditions
     for i, r in enumerate(c.requires):
@@ -520,6 +603,9 @@ def m_call_contract(self, st, c, pos, kws, kwstar, k, site=''):
         self.havoc_modifies(s2, pre, c, env)
         return s2
 
+    # ghost variables of the callee are unknown to the caller (existentially quantified)
+    for g, kind in getattr(c, 'ghost_kinds', {}).items():
+        env[g] = self.wrap(kind, fresh(g, self.kind_sort(kind)))
     # exceptional outcomes
     for cls, conds in c.raises.items():
         s2 = post_state(st, 'call:%s!%s' % (short(c.name), cls))
@@ -528,9 +614,7 @@ def m_call_contract(self, st, c, pos, kws, kwstar, k, site=''):
         if cls == 'PacketError' or cls == 'Exception*':
             exc.ref = fresh('excref', T.I)
             env2['exc'] = VRef(exc.ref, 'PacketError')
-            if cls == 'PacketError':
-                # the exception object is allocated (fresh or pre-existing nested one)
-                pass
+            s2.assume(z3.And(exc.ref >= 0, exc.ref < s2.heap['next'], self.inst_of(exc.ref, 'PacketError')))
         feasible = True
         for ci, cond in enumerate(conds):
             g = zs(self.spec_bool(s2, cond, env2, old=pre))
@@ -543,6 +627,12 @@ def m_call_contract(self, st, c, pos, kws, kwstar, k, site=''):
             s2.assume(g)
         if feasible:
             self.do_raise(s2, exc)
+    for key in c.known:
+        if key.startswith('no ') and key.endswith(' escapes'):
+            cls = key[3:-8]
+            if cls not in c.raises:
+                s2 = post_state(st, 'call:%s!%s(known)' % (short(c.name), cls))
+                self.do_raise(s2, VExc(cls, eid=fresh('eid', T.I)))
     # normal outcome
     s3 = post_state(st, None)
     env3 = dict(env)
@@ -632,28 +722,32 @@ def split_top(s):
 
 
 def m_havoc_modifies(self, st, pre, c, env, nxt0=None, alloc=None):
-    """Replace every location in c's modifies-footprint (and, if c allocates, every
-    fresh object) by an unconstrained value; everything else keeps its pre-state value."""
+    """Replace every location in c's modifies-footprint (and, if c allocates, every fresh object)
+    by an unconstrained value; everything else keeps its pre-state value.  Each changed heap
+    component becomes a fresh array constant with a triggered frame axiom (Boogie style):
+        forall r. r allocated before /\ r not in footprint  =>  A'[r] == A[r]      {A'[r]}"""
     fp = self.mod_footprint(pre, c, env)
     nxt0 = pre.heap['next'] if nxt0 is None else nxt0
     r = z3.Int('r!h')
     alloc = c.allocates if alloc is None else alloc
     if alloc:
         n1 = fresh('next', T.I)
-        st.assume(n1 >= nxt0)
+        st.assume(n1 >= pre.heap['next'])
         st.heap['next'] = n1
 
     def havoc_array(key, cells):
         old = pre.heap[key]
-        if not alloc:
+        if not alloc and len(cells) <= 2:
             new = old
             for cz in cells:
                 new = z3.Store(new, cz, z3.Select(fresh('hv', old.sort()), cz))
             st.heap[key] = new
-        else:
-            fr = fresh('hv', old.sort())
-            keep = z3.And([r != cz for cz in cells] + [r < nxt0])
-            st.heap[key] = z3.Lambda([r], z3.If(keep, z3.Select(old, r), z3.Select(fr, r)))
+            return
+        new = fresh(key.replace('.', '_').replace('#', '_').replace('?', '_set'), old.sort())
+        keep = z3.And([r != cz for cz in cells] + ([r < nxt0] if alloc else []))
+        st.assume(safe_forall([r], z3.Implies(keep, z3.Select(new, r) == z3.Select(old, r)),
+                              patterns=[z3.Select(new, r)]))
+        st.heap[key] = new
 
     for key, cells in fp.items():
         if key == 'slots':
@@ -680,33 +774,41 @@ def m_havoc_modifies(self, st, pre, c, env, nxt0=None, alloc=None):
                        or (key.endswith('?') and key[:-1] in done))
             if covered:
                 continue
-            old = pre.heap[key]
-            fr = fresh('hv', old.sort())
-            st.heap[key] = z3.Lambda([r], z3.If(r < nxt0, z3.Select(old, r), z3.Select(fr, r)))
+            havoc_array(key, [])
 
 
 def m_havoc_slots(self, st, pre, cells, alloc, nxt0):
     r = z3.Int('r!h')
     nm = z3.String('n!h')
-    for comp, vs in (('slots', T.Val), ('has', T.B)):
+    objs = [c[1] for c in cells if c[0] == 'obj']
+    partial = {}
+    for cdesc in cells:
+        if cdesc[0] != 'obj':
+            partial.setdefault(str(cdesc[1]), (cdesc[1], []))[1].append(cdesc)
+    for comp in ('slots', 'has'):
         old = pre.heap[comp]
-        fr = fresh('hv', old.sort())
-        # condition under which (r, nm) is in the footprint
-        conds = []
-        for cdesc in cells:
-            if cdesc[0] == 'obj':
-                conds.append(r == cdesc[1])
-            elif cdesc[0] == 'cell':
-                conds.append(z3.And(r == cdesc[1], nm == cdesc[2]))
-            elif cdesc[0] == 'pred':
-                env = dict(cdesc[3])
-                env['n'] = VStr(nm)
-                conds.append(z3.And(r == cdesc[1], self.spec_bool(pre, cdesc[2], env)))
-        infp = z3.Or(conds + [z3.BoolVal(False)])
-        if alloc:
-            infp = z3.Or(infp, r >= nxt0)
-        st.heap[comp] = z3.Lambda([r], z3.Lambda([nm], z3.If(infp, z3.Select(z3.Select(fr, r), nm),
-                                                               z3.Select(z3.Select(old, r), nm))))
+        new = fresh(comp, old.sort())
+        # objects not touched at all keep their whole slot map
+        untouched = z3.And([r != o for o in objs] + [r != p[0] for p in partial.values()] +
+                           ([r < nxt0] if alloc else []))
+        st.assume(safe_forall([r], z3.Implies(untouched, z3.Select(new, r) == z3.Select(old, r)),
+                              patterns=[z3.Select(new, r)]))
+        # partially modified objects keep the slots outside the footprint
+        for pz, descs in partial.values():
+            if any(pz.eq(o) for o in objs):
+                continue
+            conds = []
+            for cdesc in descs:
+                if cdesc[0] == 'cell':
+                    conds.append(nm == cdesc[2])
+                else:
+                    env = dict(cdesc[3])
+                    env['n'] = VStr(nm)
+                    conds.append(self.spec_bool(pre, cdesc[2], env))
+            st.assume(safe_forall([nm], z3.Implies(z3.Not(z3.Or(conds)),
+                                                   z3.Select(z3.Select(new, pz), nm) == z3.Select(z3.Select(old, pz), nm)),
+                                  patterns=[z3.Select(z3.Select(new, pz), nm)]))
+        st.heap[comp] = new
 
 
 # ---------------------------------------------------------------------- builtins
@@ -817,6 +919,17 @@ def m_inst_of(self, r, clsname):
 def m_bi_isinstance(self, st, pos, kws, k):
     v, c = pos
     names = []
+    if isinstance(c, VClassSym):
+        f = z3.Function('isinst_cls', T.I, T.I, T.B)
+        if isinstance(v, VRef):
+            r, ok = v.z, z3.BoolVal(True)
+        elif isinstance(v, VDyn):
+            r, ok = T.Val.rval(v.z), T.Val.is_VR(v.z)
+        else:
+            return k(st, VBool(False))
+        # an object is an instance of its own class (reflexivity is all that is assumed)
+        self.extra_hyps.append(z3.Implies(self.class_of(r) == c.z, f(r, c.z)))
+        return k(st, VBool(z3.And(ok, f(r, c.z))))
     if isinstance(c, VFunc) and c.tag in ('class', 'builtin'):
         names = [c.payload[0]]
     elif isinstance(c, VTuple):
@@ -880,6 +993,8 @@ def m_bi_hasattr(self, st, pos, kws, k):
             if key in st.heap:
                 return k(st, VBool(z3.Select(st.heap[key], obj.z)))
             return k(st, VBool(True))
+    if isinstance(obj, VRef) and isinstance(name, VStr):
+        return k(st, VBool(self.slot_has(st, obj.z, name.z)))
     raise Untranslated('hasattr(%s, %s)' % (obj.kind, name.py))
 
 
@@ -983,6 +1098,28 @@ def m_bi_bisect_right(self, st, pos, kws, k):
     for f in self.bisect_facts(arr, n, xz):
         st.assume(f)
     return k(st, VInt(T.bisect_r(arr, n, xz)))
+
+
+def m_bi_Exception___init__(self, st, pos, kws, k):
+    return k(st, VNone())
+
+
+def m_bi_sys_exc_info(self, st, pos, kws, k):
+    return k(st, VTuple([VDyn(fresh('exc_info', T.Val)) for _ in range(3)]))
+
+
+def m_bi_traceback_format_exception(self, st, pos, kws, k):
+    n = fresh('tb_len', T.I)
+    st.assume(n >= 0)
+    return k(st, VSeqAbs(n, lambda i: VStr(z3.Function('tb_line', T.I, T.S)(i)), 'traceback'))
+
+
+def m_bm_str_join(self, st, v, pos, kws, k):
+    return k(st, VStr(fresh('joined', T.S)))
+
+
+def m_bm_str_encode(self, st, v, pos, kws, k):
+    return k(st, VBytes(fresh('encoded', T.Bytes)))
 
 
 def m_bi_str(self, st, pos, kws, k):
@@ -1397,6 +1534,18 @@ def m_assign(self, st, target, v, k):
                     return self.assign(st, target.elts[i], v.elem(z3.IntVal(i)), lambda st: go(st, i + 1))
                 return go(st, 0)
             return self.with_raises(st, [(v.n != n, 'ValueError')], cont)
+        if isinstance(v, VDyn):
+            from .values import tuple_parts
+            ist, items = tuple_parts(v.z, n)
+            self.need_tuple_axioms = True
+
+            def cont(st):
+                def go(st, i):
+                    if i == n:
+                        return k(st)
+                    return self.assign(st, target.elts[i], VDyn(items[i]), lambda st: go(st, i + 1))
+                return go(st, 0)
+            return self.with_raises(st, [(z3.Not(ist), 'TypeError')], cont)
         raise Untranslated('unpacking of %s' % v.kind)
     if isinstance(target, ast.Attribute):
         def got(st, base):
@@ -1480,6 +1629,8 @@ def m_s_Raise(self, st, s, k):
             return self.call_class(st, v.payload[0], [], {}, None, lambda st, e: self.do_raise(st, e))
         if isinstance(v, VExc):
             return self.do_raise(st, v)
+        if isinstance(v, VRef) and v.cls == 'PacketError':
+            return self.do_raise(st, VExc('PacketError', ref=v.z))
         raise Untranslated('raise of %s' % v.kind)
     return self.ev(st, s.exc, got)
 
@@ -1560,14 +1711,14 @@ def m_dispatch_handlers(self, st, handlers, exc, k):
         saved = st2.cur_exc
         st2.cur_exc = e
         if h.name:
-            st2.loc[h.name] = e
+            st2.loc[h.name] = VRef(e.ref, 'PacketError') if (e.cls == 'PacketError' and e.ref is not None) else e
 
         def done(st3):
             st3.cur_exc = saved
             return k(st3)
         return self.exec_block(st2, h.body, done)
 
-    if exc.cls != 'Exception*':
+    if exc.cls not in ('Exception*', 'OtherException*'):
         if names is None or any(exc_le(exc.cls, nme) for nme in names):
             return run(st, exc)
         return self.dispatch_handlers(st, handlers[1:], exc, k)
@@ -1576,6 +1727,8 @@ def m_dispatch_handlers(self, st, handlers, exc, k):
         return run(st, exc)
     # fork: the exception is an instance of one of the named classes, or it is not
     for nme in names:
+        if exc.cls == 'OtherException*' and nme == 'PacketError':
+            continue        # by definition not a PacketError
         isit = self.exc_is(exc, nme)
         s2 = st.fork('exc-is-' + nme)
         s2.assume(isit)
@@ -1640,12 +1793,16 @@ def m_loop_head(self, st, idx, spec, assigned, itname):
     """assert invariant on entry, havoc, assume invariant. Returns (entry snapshot, it)"""
     env0 = self.fn_env
     def inv_env(st, it):
-        e = dict(env0)
+        # in loop invariants names denote the CURRENT values of the locals (parameters included);
+        # entry_<param> denotes the value of a parameter at function entry
+        e = {}
+        for nme, v in env0.items():
+            e['entry_' + nme] = v
+            e[nme] = v
         for nme, v in st.loc.items():
-            if v is not None and nme not in e:
+            if v is not None:
                 e[nme] = v
-            elif v is not None and nme in assigned:
-                e[nme] = v      # loop variables shadow (params reassigned in loops refer to current value)
+        e.update({g: v for g, v in st.ghost.items() if isinstance(v, V)})
         e['it'] = VInt(it)
         return e
     entry = st.fork()
@@ -1719,7 +1876,12 @@ def m_s_For(self, st, s, k):
             st2.path.append('break')
             k(st2)
         s1.ctx = wrap_ctx(outer, on_break=on_break, on_continue=after_body)
-        self.assign(s1, s.target, seq.elem(it), lambda st2: self.exec_block(st2, s.body, after_body))
+
+        def start_iter(st2):
+            for g, expr in spec.ghost.items():      # sidecar ghost code: g := expr at iteration start
+                st2.ghost[g] = self.spec(st2, expr, inv_env(st2, it), old=self.fn_pre)
+            return self.exec_block(st2, s.body, after_body)
+        self.assign(s1, s.target, seq.elem(it), start_iter)
         # exit
         s2 = st.fork('loop%d:exit' % idx)
         s2.assume(it == seq.n)
@@ -1776,8 +1938,16 @@ def m_s_Continue(self, st, s, k):
 
 
 def m_listcomp_effect(self, st, n, k):
-    """``[f(x) for f in seq]`` used as a statement: a loop calling each element."""
-    raise Untranslated('list comprehension for effect')
+    """``[f(x) for f in seq]`` used as a statement: desugared into the equivalent for loop
+    (the resulting list is discarded)."""
+    if len(n.generators) != 1 or n.generators[0].ifs:
+        raise Untranslated('list comprehension form')
+    g = n.generators[0]
+    loop = ast.For(target=g.target, iter=g.iter, body=[ast.Expr(value=n.elt)], orelse=[])
+    ast.copy_location(loop, n)
+    ast.fix_missing_locations(loop)
+    self.loop_ordinals[id(loop)] = self.listcomp_ordinals[id(n)]
+    return self.s_For(st, loop, k)
 
 
 # ====================================================================== frame checking
@@ -1843,6 +2013,8 @@ def m_verify_function(self, c):
     for sub in ast.walk(node):
         if hasattr(sub, 'lineno'):
             sub.lineno_rel = sub.lineno - first
+    self.listcomp_ordinals = {}
+
     class LV(ast.NodeVisitor):
         def visit_For(s2, n):
             nonlocal cnt
@@ -1850,6 +2022,13 @@ def m_verify_function(self, c):
             cnt += 1
             s2.generic_visit(n)
         visit_While = visit_For
+
+        def visit_Expr(s2, n):
+            nonlocal cnt
+            if isinstance(n.value, ast.ListComp):
+                self.listcomp_ordinals[id(n.value)] = cnt
+                cnt += 1
+            s2.generic_visit(n)
         def visit_FunctionDef(s2, n):
             if n is node:
                 s2.generic_visit(n)
@@ -1894,6 +2073,8 @@ def m_verify_function(self, c):
     pre = st.fork()
     self.fn_pre = pre
     self.loop_frame_contract = c
+    for g, expr in getattr(c, 'ghost_init', {}).items():
+        st.ghost[g] = self.spec(st, expr, env)
 
     def on_return(st2, v):
         self.end_normal(st2, c, env, pre, v)
@@ -1937,6 +2118,7 @@ def m_end_normal(self, st, c, env, pre, v):
     self.paths_ended.append(('return', list(st.path)))
     self.apply_ghost(st, c, env, pre)
     env2 = dict(env)
+    env2.update({g: v for g, v in st.ghost.items() if isinstance(v, V)})
     if c.returns == 'none':
         if not isinstance(v, VNone):
             self.add_obligation(st, 'post', 'returns None', z3.BoolVal(False), 'contract says the function returns None')
@@ -1968,15 +2150,20 @@ def m_end_raise(self, st, c, env, pre, exc):
     self.paths_ended.append(('raise:' + exc.cls, list(st.path)))
     allowed = None
     for cls in c.raises:
-        if cls == exc.cls or (cls != 'Exception*' and exc.cls != 'Exception*' and exc_le(exc.cls, cls)) \
-                or cls == 'Exception*':
+        unknown = ('Exception*', 'OtherException*')
+        if cls == exc.cls or (cls not in unknown and exc.cls not in unknown and exc_le(exc.cls, cls)) \
+                or cls == 'Exception*' or (cls == 'OtherException*' and exc.cls != 'PacketError'
+                                           and exc.cls != 'Exception*'):
             allowed = cls
             break
     if allowed is None:
-        self.add_obligation(st, 'noraise', 'no %s escapes' % exc.cls, z3.BoolVal(False),
-                            'path raises %s which the contract does not allow' % exc.cls)
+        envn = dict(env)
+        envn.update({g: v for g, v in st.ghost.items() if isinstance(v, V)})
+        self.clause_obligation(st, c, 'noraise', 'no %s escapes' % exc.cls, z3.BoolVal(False),
+                               'path raises %s which the contract does not allow' % exc.cls, envn, pre)
         return
     env2 = dict(env)
+    env2.update({g: v for g, v in st.ghost.items() if isinstance(v, V)})
     if exc.ref is not None:
         env2['exc'] = VRef(exc.ref, 'PacketError')
     for i, e in enumerate(c.raises[allowed]):
